@@ -5,6 +5,7 @@ import Hpl.Model.Build
 import Hpl.Model.Query
 import Hpl.Model.Printer
 import Hpl.Spec.PrintChars
+import Hpl.Spec.PrintCharsProp
 import Hpl.Spec.Typing
 import Hpl.Spec.Scoping
 import Hpl.Model.Canon
@@ -300,7 +301,9 @@ def handle (req : Sexp) : Sexp :=
           let back := match parsePropertyToks (r.toks fmt), buildProperty r with
             | .ok r', .ok p => (match buildProperty r' with | .ok p' => p == p' | .error _ => false)
             | _, _ => false
-          okS [Sexp.ofBool (r.printable fmt), Sexp.ofBool toksEq, Sexp.ofBool back]
+          -- text level (Props/C06k parse_printed_property): the decidable hypotheses, and that the text is `RawProperty.chars` of its own tree
+          okS [Sexp.ofBool (r.printable fmt), Sexp.ofBool toksEq, Sexp.ofBool back, Sexp.ofBool (r.lexOkB fmt),
+               Sexp.ofBool (String.ofList (r.chars fmt) == text)]
     else errS "protocol" "rtcheck entry"
   | .list [.atom "printany", x] =>
     let fmt : Rat → String := fun q => match floatRepr q with | some s => s | none => "<float>"
